@@ -13,8 +13,12 @@ CONSTANTS
   SampleK = 0
   EmitOneIn = 1
   Focus <- FocusAll
+  BDev <- NoBDev
 INVARIANT DeclaredCols
 INVARIANT HistOK
 INVARIANT StepLaw
 INVARIANT PermLaw
+INVARIANT Irrelevance
+INVARIANT BuilderMeaning
+INVARIANT BuilderAcceptance
 CHECK_DEADLOCK FALSE
